@@ -94,6 +94,8 @@ FILLS = [
     ('none', {}),
     ('fill_value', {'fill_value': 7}),
     ('fill_value_float', {'fill_value': 2.5}),
+    ('fill_value_zero', {'fill_value': 0}),
+    ('fill_value_false', {'fill_value': False}),
     ('keyword', {'K': -1, 'F': 8.5, 'Y': -2.0, 'status': 'X'}),
     ('both', {'fill_value': 7, 'S': 'q', 'X': 0.25, 'iterations': 99}),
     ('unknown', {'fill_value': 0, 'Nope': 1}),
@@ -264,7 +266,7 @@ def blocks(tier, seed):
                     # the other fill configurations run on three type pairs, the other solve states with the default fill
                     if objkind in ('model-unsolved', 'model-solved') and fill_name != 'none':
                         continue
-                    if fill_name not in ('none', 'both', 'falsy-keywords') and ti not in (0, 4, 5):
+                    if fill_name not in ('none', 'both', 'falsy-keywords') and ti not in (0, 4, 5) or (fill_name in ('fill_value_zero', 'fill_value_false') and ti != 0):
                         continue
                 out.append({'types': list(types), 'obj': objkind, 'fill': fill_name})
     for types in (('list_int', 'list_int'), ('pd_int', 'pd_int'), ('pd_year', 'pd_year')):
